@@ -10,6 +10,7 @@
  * mkpath is BOUNDED: paths of at most 16 characters (all of them, any mix of slashes). */
 #include "prelude.h"
 extern int __CPROVER_errno;
+unsigned nondet_uint(void);
 
 #define PMAX 16
 char g_pc[PMAX + 1];         /* copy of the path given to mkpath (bound in requires) */
@@ -22,14 +23,18 @@ int g_track;                 /* stubs track prefix lengths (mkpath groups) */
 int g_md, g_stat;            /* last mkdir outcome: 1 created, 2 EEXIST, 3 other failure; last stat: 1 failed, 2 dir, 3 not dir */
 unsigned g_calls;
 
+/* length of the string p, which must be a prefix of the path.  Loop-free: l is chosen with
+ * p[l] == 0 (one exists: p[PMAX] == 0 is asserted first); that no NUL comes earlier and that
+ * the characters are the path's is ASSERTED at an arbitrary position j, i.e. for every j. */
 static unsigned c09_preflen(const char *p)
 {
-	unsigned l = 0;
-	while (l <= PMAX && p[l] != 0) {
-		VASSERT(p[l] == g_pc[l], "mkdir/stat argument is a prefix of the path");
-		l++;
-	}
-	VASSERT(l <= PMAX, "mkdir/stat argument is NUL terminated within the bound");
+	VASSERT(p[PMAX] == 0 || p[g_n] == 0, "mkdir/stat argument is NUL terminated within the bound");
+	unsigned l = nondet_uint();
+	__CPROVER_assume(l <= PMAX && p[l] == 0);
+	unsigned j = nondet_uint();
+	__CPROVER_assume(j < l);
+	VASSERT(p[j] != 0, "chosen length is the string length");
+	VASSERT(p[j] == g_pc[j], "mkdir/stat argument is a prefix of the path");
 	return l;
 }
 
@@ -56,11 +61,25 @@ int stat(const char *p, struct stat *st)
 	unsigned l = 0;
 	if (g_track) l = c09_preflen(p);
 	if (nondet_bool()) { g_stat = 1; g_hardfail = 1; __CPROVER_errno = nondet_int(); return -1; }
-	mode_t m = (mode_t) nondet_int();
+	mode_t m = (mode_t) nondet_uint();
 	st->st_mode = m;
 	if (S_ISDIR(m)) { g_stat = 2; if (g_track && l <= PMAX) g_isdir[l] = 1; }
 	else { g_stat = 3; g_hardfail = 1; }
 	return 0;
+}
+
+/* strdup (libc, outside the unit): a fresh buffer holding a copy of the string.  Modelled with a
+ * fixed PMAX+1 byte allocation (a symbolic-size object makes the bounded run exhaust memory);
+ * assumed not to fail: mkpath does not check its result (NULL dereference on memory exhaustion --
+ * not a file-system fault, outside C10). */
+char *strdup(const char *str)
+{
+	char *cpy = malloc(PMAX + 1);
+	__CPROVER_assume(cpy != NULL);
+	unsigned i = 0;
+	for (; i < PMAX && str[i] != 0; i++) cpy[i] = str[i];
+	cpy[i] = 0;
+	return cpy;
 }
 
 #include "common.c"
@@ -89,47 +108,44 @@ void h_mkdir_if_need(void)
 	if (r != 0 && g_stat == 1) REACH("exists but stat failed");
 }
 
-/* mkpath(path, mode, is_dir), path of <= 16 chars:
+/* mkpath(path, mode, is_dir), EVERY path of <= 16 chars (plain bounded harness, no contract
+ * instrumentation: the nested string loops under DFCC need > 40 GB):
  *   returns 0 ==> for EVERY component end k (a '/' at k > 0 not preceded by '/', inside the
  *                 path stripped of trailing slashes; and the stripped end itself if is_dir)
  *                 path[0..k) was created or exists as a directory       (observed at arbitrary g_k)
- *   some mkdir failed other than EEXIST / stat failed / not a directory ==> returns non-zero
- *   mkdir and stat are only ever called on prefixes of the path (stub assertions) */
-#define C1(i) (g_pc[i] == path[i])
-#define BIND_PATH (C1(0) && C1(1) && C1(2) && C1(3) && C1(4) && C1(5) && C1(6) && C1(7) && C1(8) && C1(9) \
-	&& C1(10) && C1(11) && C1(12) && C1(13) && C1(14) && C1(15) && C1(16))
-#define L1(i) ((i) >= g_n || g_pc[i] != 0)
-#define LEN_IS_N (g_n <= PMAX && g_pc[g_n] == 0 && L1(0) && L1(1) && L1(2) && L1(3) && L1(4) && L1(5) && L1(6) && L1(7) \
-	&& L1(8) && L1(9) && L1(10) && L1(11) && L1(12) && L1(13) && L1(14) && L1(15))
-#define S1(i) ((i) < g_ns || (i) >= g_n || g_pc[i] == '/')
-#define STRIP_IS_NS (g_ns <= g_n && (g_n == 0 || g_ns >= 1) && (g_ns <= 1 || g_pc[g_ns - 1] != '/') \
-	&& S1(0) && S1(1) && S1(2) && S1(3) && S1(4) && S1(5) && S1(6) && S1(7) \
-	&& S1(8) && S1(9) && S1(10) && S1(11) && S1(12) && S1(13) && S1(14) && S1(15))
+ *   some mkdir failed other than EEXIST / stat failed / not a directory <==> returns non-zero
+ *   nothing but component prefixes is created; mkdir and stat are only ever called on
+ *   prefixes of the path (stub assertions); the caller's string is not modified */
 #define COMPONENT_END(k) (((k) > 0 && (k) < g_ns && g_pc[k] == '/' && g_pc[(k) - 1] != '/') || ((k) == g_ns && is_dir))
-int w_is_dir;
-WITNESS(mkpath);
-int c_mkpath(const char *path, mode_t mode, int is_dir)
-__CPROVER_requires(__CPROVER_is_fresh(path, PMAX + 1) && path[PMAX] == 0)
-__CPROVER_requires(BIND_PATH && LEN_IS_N && STRIP_IS_NS && g_k <= PMAX)
-__CPROVER_requires(g_track == 1 && g_hardfail == 0 && g_isdir[g_k] == 0 && g_calls == 0)
-__CPROVER_requires(WBIND(mkpath, w_is_dir == is_dir))
-__CPROVER_assigns(__CPROVER_errno, g_md, g_stat, g_hardfail, g_calls, g_isdir)
-__CPROVER_ensures(RV != 0 || !COMPONENT_END(g_k) || g_isdir[g_k] == 1)
-__CPROVER_ensures(g_hardfail == 0 || RV != 0)
-__CPROVER_ensures(RV == 0 || g_hardfail != 0)
-/* nothing is created beyond the components */
-__CPROVER_ensures(g_isdir[g_k] == 0 || COMPONENT_END(g_k))
-;
 void h_mkpath(void)
 {
-	const char *path; mode_t mode; int is_dir;
-	WITNESS_ON(mkpath);
+	char path[PMAX + 1];
+	mode_t mode = (mode_t) nondet_uint();
+	int is_dir = nondet_int();
+	for (unsigned i = 0; i < PMAX; i++) path[i] = nondet_char();
+	path[PMAX] = 0;
+	/* specification side: copy, length, length without trailing slashes */
+	for (unsigned i = 0; i <= PMAX; i++) g_pc[i] = path[i];
+	g_n = 0;
+	while (g_n < PMAX && g_pc[g_n] != 0) g_n++;
+	g_ns = g_n;
+	while (g_ns > 1 && g_pc[g_ns - 1] == '/') g_ns--;
+	g_k = nondet_uint();
+	__CPROVER_assume(g_k <= PMAX);
+	g_track = 1;
+
 	int r = mkpath(path, mode, is_dir);
+
+	VASSERT(r != 0 || !COMPONENT_END(g_k) || g_isdir[g_k] == 1, "mkpath returns 0 ==> every component is a directory");
+	VASSERT((r != 0) == (g_hardfail != 0), "mkpath fails exactly when a mkdir failed other than EEXIST-on-a-directory");
+	VASSERT(g_isdir[g_k] == 0 || COMPONENT_END(g_k), "nothing but components is created");
+	VASSERT(path[g_k] == g_pc[g_k], "the caller's path is not modified");
 	if (r == 0) REACH("mkpath succeeded");
 	if (r != 0) REACH("mkpath failed");
 	if (r == 0 && g_calls >= 4) REACH("four components");
-	if (r == 0 && g_n == 16 && g_ns < g_n) REACH("16 characters with trailing slashes");
+	if (r == 0 && g_n == 16 && g_ns < g_n && g_calls >= 2) REACH("16 characters with trailing slashes");
 	if (r == 0 && g_pc[0] == '/' && g_calls > 0) REACH("absolute path");
-	if (r == 0 && !w_is_dir && g_calls > 0) REACH("file path: last component not created");
+	if (r == 0 && !is_dir && g_calls > 0) REACH("file path: last component not created");
 	if (r == 0 && g_n == 0) REACH("empty path");
+	if (r == 0 && g_n >= 3 && g_pc[1] == '/' && g_pc[2] == '/' && g_calls >= 2) REACH("double slash inside");
 }
